@@ -92,6 +92,42 @@ var scenarios = []scenario{
 		},
 	},
 	{
+		// the replica comes back after RemoveNodeData (in the same process, and after a reopen) and
+		// is brought up by a snapshot whose index lies inside the log it had before the removal:
+		// nothing of that log may be reported again
+		name: "reuse-after-RemoveNodeData:snapshot-inside-the-old-log", logSize: 6000,
+		build: func(rng *rand.Rand) []op {
+			ss := mkSnapshot(rng, nA, 50, 3)
+			recv := ud(nA, pb.State{Term: 3, Vote: 2, Commit: 50}, fixedEntries(rng, 51, 2, 3, 16))
+			recv.Snapshot = ss
+			return []op{
+				bootOp(nA),
+				saveOp(ud(nA, pb.State{Term: 1, Vote: 1, Commit: 60}, fixedEntries(rng, 1, 60, 1, 16))),
+				{Kind: "removenode", Node: nA},
+				bootOp(nA),
+				saveOp(recv),
+				{Kind: "reopen"},
+			}
+		},
+	},
+	{
+		name: "reuse-after-RemoveNodeData-and-reopen:snapshot-inside-the-old-log", logSize: 6000,
+		build: func(rng *rand.Rand) []op {
+			ss := mkSnapshot(rng, nA, 50, 3)
+			recv := ud(nA, pb.State{Term: 3, Vote: 2, Commit: 50}, fixedEntries(rng, 51, 2, 3, 16))
+			recv.Snapshot = ss
+			return []op{
+				bootOp(nA),
+				saveOp(ud(nA, pb.State{Term: 1, Vote: 1, Commit: 60}, fixedEntries(rng, 1, 60, 1, 16))),
+				{Kind: "removenode", Node: nA},
+				{Kind: "reopen"},
+				bootOp(nA),
+				saveOp(recv),
+				{Kind: "reopen"},
+			}
+		},
+	},
+	{
 		// candidate 5: two replicas whose shard ids are equal mod 16 (one
 		// multiplexed Tan db); their entries span several log files; the data of
 		// one of them is removed.
